@@ -163,7 +163,7 @@ func sceneCtxMsg(op int, o ReqOpts) {
 		chk("C09", vf.All(pre.State != types.COMPLETED, post.State == pre.State), "update-never-on-completed")
 		chk("C10 C11 C08", vf.Implies(post.Repeated, post.RepeatedFrequency >= uint64(post.Timeout)), "frequency-at-least-timeout")
 		// a timeout set by the message is within the maximum in force; otherwise the timeout is kept
-		chk("C08", vf.And(post.Timeout >= 1, vf.Or(vf.And(uTimeout != 0, post.Timeout == uTimeout && uTimeout <= k.MaxRequestTimeout(ctx)), vf.And(uTimeout == 0, post.Timeout == pre.Timeout))), "timeout-within-bounds")
+		chk("C08", vf.And(post.Timeout >= 1, vf.Or(vf.And(uTimeout != 0, post.Timeout == uTimeout && uTimeout <= vf.Params(ctx).MaxRequestTimeout), vf.And(uTimeout == 0, post.Timeout == pre.Timeout))), "timeout-within-bounds")
 		chk("C11 C10 C08 C02 C01 C12 C16", vf.All(k.HasRequestBatchExpiration(ctx, id) == hadExp, k.HasNewRequestBatch(ctx, id) == hadNew), "update-keeps-queues")
 		chk("C06", vf.All(len(post.Providers) >= 1, post.ServiceFeeCap.AmountOf(Denom).IsPositive()), "providers-and-cap-stay-valid")
 		if post.RepeatedTotal > maxTotal {
